@@ -40,6 +40,11 @@ Theorem C15_polyline2d_remove_colinear_is_the_scan : forall (p : Polyline2R) tol
 Proof. exact polyline_remove_colinear_spec. Qed.
 Print Assumptions C15_polyline2d_remove_colinear_is_the_scan.
 
+Theorem C15_polyline2d_remove_colinear_keeps_the_interpolated_flag : forall (p : Polyline2R) tol,
+  pl2_interp (Polyline2D_remove_colinear_vertices p tol) = pl2_interp p.
+Proof. exact polyline_remove_colinear_keeps_flag. Qed.
+Print Assumptions C15_polyline2d_remove_colinear_keeps_the_interpolated_flag.
+
 (* the scan keeps only original interior vertices; it keeps all of them when every one is a corner whatever vertex precedes it *)
 Theorem C15_polyline_scan_keeps_only_original_vertices : forall tol l prev v, In v (scanp tol prev l) -> In v (map fst l).
 Proof. exact scanp_sub. Qed.
